@@ -413,6 +413,7 @@ CLAUSES = {
     "deviations": run_program,
     "rest_ticks": run_program,
     "rewrite": run_rewrite,
+    "tempo_carriers": run_program,
     "standalone": run_standalone,
     "writer_bfs": run_writer_bfs,
     "vlq": run_vlq,
@@ -441,6 +442,24 @@ def gen_bars(shard):
         comp = {"tracks": [{"name": None, "instrument": None, "bars": [Z.bar_recipe(pat)]}]}
         yield {"comp": comp, "bpm": 120, "repeat": 0, "apis": ["bar", "track", "composition"]}
         yield {"comp": comp, "bpm": 120, "repeat": 1, "apis": ["bar", "track"]}
+
+
+def gen_tempo_carriers(bpm):
+    """containers that carry a `bpm` attribute (the tempo of the file, so that every tempo event has the written value):
+    after rests, after notes, at the start of a bar, twice in a row -- the notes stand where their entries start"""
+    def T(kind):
+        return {"notes": Z.content(kind), "bpm": bpm}
+    pats = [[[4, None], [4, T("N")], [2, Z.content("M")]],
+            [[4, Z.content("N")], [8, None], [8, T("CH")], [2, Z.content("M")]],
+            [[4, T("N")], [4, None], [4, T("M")], [4, None]],
+            [[2, None], [4, None], [4, T("N")]],
+            [[4, T("N")], [4, T("M")], [2, None]]]
+    for ents in pats:
+        bar = {"key": "C", "meter": [4, 4], "entries": ents}
+        comp = {"tracks": [{"name": None, "instrument": None, "bars": [bar]}]}
+        yield {"comp": comp, "bpm": bpm, "repeat": 0, "apis": ["bar", "track", "composition"]}
+        two = {"tracks": [{"name": "T", "instrument": ["midi", 5], "bars": [Z.bar_recipe(Z.PATTERNS[5]), bar, bar]}]}
+        yield {"comp": two, "bpm": bpm, "repeat": 1, "apis": ["track", "composition"]}
 
 
 def gen_rest_ticks(shard):
@@ -635,6 +654,8 @@ def explore(ctx):
         for i, (vals, mx) in enumerate(passes):
             BAR_VALUES, BAR_MAX, BAR_EARLIER = vals, mx, passes[:i]
             ctx.product("bars", [("", 0)] + [(k, v) for k in Z.SYMBOLS for v in vals], gen_bars)
+    if ctx.want("tempo_carriers"):
+        ctx.product("tempo_carriers", [120, 90, 250], gen_tempo_carriers)
     if ctx.want("rewrite"):
         ctx.bound("rewrite", {"patterns": REWRITE_PATTERNS, "edits": REWRITE_EDITS, "routes": ["write_Track", "constructor"]})
         ctx.serial("rewrite", [[pi, e, r] for pi in REWRITE_PATTERNS for e in REWRITE_EDITS for r in ("write_Track", "constructor")])
